@@ -1,0 +1,85 @@
+//go:build verif
+
+// Contracts for package igc, read by /verif's govc. Comment-only.
+package igc
+
+// C19: the decoder is total. Every string index is guarded by the record-length invariant igcInv that the
+// I record parser maintains; the fix array always holds whole fixes.
+
+//@ func parseDec
+//@   requires 0 <= start && start < len(s) && stop <= len(s)
+//@   ensures res2 == nil && s[start] != 45 ==> res1 == decVal(s, start, stop) && res1 >= 0
+//@   ensures (s[start] != 45 && forall k int :: start <= k && k < stop ==> 48 <= s[k] && s[k] <= 57) ==> res2 == nil
+//@   modifies nothing
+//@   loop 1:
+//@     invariant i >= start && start >= start0 && start <= start0 + 1 && (start == start0 + 1 <==> neg) && (neg <==> s[start0] == 45)
+//@     invariant result == decVal(s, start, i) && result >= 0 && (i <= stop || i == start)
+//@     invariant forall k int :: start <= k && k < i ==> 48 <= s[k] && s[k] <= 57
+
+//@ func parseDecInRange
+//@   requires 0 <= start && start < len(s) && stop <= len(s)
+//@   ensures res2 == nil ==> minValue <= res1 && res1 < maxValue
+//@   ensures res2 == nil && s[start] != 45 ==> res1 == decVal(s, start, stop)
+//@   ensures (s[start] != 45 && (forall k int :: start <= k && k < stop ==> 48 <= s[k] && s[k] <= 57) && minValue <= decVal(s, start, stop) && decVal(s, start, stop) < maxValue) ==> res2 == nil
+//@   modifies nothing
+
+//@ func newParser
+//@   ensures fresh(res) && igcInv(res) && res.coords == nil && res.headers == nil
+//@   modifies nothing
+
+//@ func parser.parseI
+//@   requires igcInv(p)
+//@   ensures igcInv(p) && p.coords == old(p.coords) && p.headers == old(p.headers)
+//@   modifies *p
+//@   loop 1:
+//@     invariant igcInv(p) && p.coords == old(p.coords) && p.headers == old(p.headers)
+
+//@ func parser.parseH
+//@   requires igcInv(p)
+//@   ensures igcInv(p) && p.coords == old(p.coords)
+//@   ensures [year] res == nil && len(p.headers) > 0 && streq(p.headers[len(p.headers)-1].Key, "DTE") && len(p.headers[len(p.headers)-1].Value) >= 6 && isDigit(p.headers[len(p.headers)-1].Value[4]) && isDigit(p.headers[len(p.headers)-1].Value[5]) ==> 1970 <= p.year && p.year <= 2069 && p.year % 100 == decVal(p.headers[len(p.headers)-1].Value, 4, 6)
+//@   ensures fresh(p.headers) || (base(p.headers) == old(base(p.headers)) && off(p.headers) == old(off(p.headers)) && cap(p.headers) == old(cap(p.headers)))
+//@   modifies *p, spare(p.headers)
+
+//@ func parser.parseB
+//@   requires igcInv(p) && whole(len(p.coords), 5)
+//@   ensures igcInv(p) && whole(len(p.coords), 5) && p.headers == old(p.headers)
+//@   ensures fresh(p.coords) || (base(p.coords) == old(base(p.coords)) && off(p.coords) == old(off(p.coords)) && cap(p.coords) == old(cap(p.coords)))
+//@   ensures [accepts] (len(line) >= p.bRecordLen && p.tdsStart == 0 && p.ladStart == 0 && p.lodStart == 0 && allDigits(line, 1, 14) && allDigits(line, 15, 23) && allDigits(line, 25, 35) && (line[14] == 78 || line[14] == 83) && (line[23] == 69 || line[23] == 87) && igcTime(decVal(line, 1, 3), decVal(line, 3, 5), decVal(line, 5, 7)) && igcFix(decVal(line, 7, 9), decVal(line, 9, 14), decVal(line, 15, 18), decVal(line, 18, 23), decVal(line, 25, 30))) ==> res == nil
+//@   at exit: use wholeStep(old(len(p.coords)), 5)
+//@   modifies *p, spare(p.coords)
+
+//@ func parser.parseLine
+//@   requires igcInv(p) && whole(len(p.coords), 5) && len(line) > 0
+//@   ensures igcInv(p) && whole(len(p.coords), 5)
+//@   ensures fresh(p.coords) || (base(p.coords) == old(base(p.coords)) && off(p.coords) == old(off(p.coords)) && cap(p.coords) == old(cap(p.coords)))
+//@   ensures fresh(p.headers) || (base(p.headers) == old(base(p.headers)) && off(p.headers) == old(off(p.headers)) && cap(p.headers) == old(cap(p.headers)))
+//@   modifies *p, spare(p.coords), spare(p.headers)
+
+//@ func doParse
+//@   ensures res1 != nil && igcInv(res1) && whole(len(res1.coords), 5)
+//@   modifies nothing
+//@   loop 1:
+//@     invariant fresh(p) && igcInv(p) && whole(len(p.coords), 5) && (fresh(p.coords) || cap(p.coords) == 0) && (fresh(p.headers) || cap(p.headers) == 0) && (fresh(errors) || cap(errors) == 0)
+
+//@ func Read
+//@   ensures res1 != nil && res1.LineString != nil && wf1(res1.LineString) && res1.LineString.layout == 5
+//@   modifies nothing
+
+// ---------------------------------------------------------------------------
+// C19 round trip, numeric layer: every field the encoder passes to the B-record format satisfies igcFix /
+// igcTime (obligation in Encode), and the decoder accepts every basic B record whose fields satisfy them
+// (postcondition [accepts] of parseB). The text in between (fmt %0Nd, bufio) is trusted.
+
+//@ func clamp
+//@   requires minValue <= maxValue
+//@   ensures minValue <= res && res <= maxValue && (minValue <= x && x <= maxValue ==> res == x)
+//@   modifies nothing
+
+//@ func Encoder.Encode
+//@   floats real
+//@   requires ls != nil && wf1(ls) && ls.stride >= 4
+//@   at after:fmt.Fprintf#3: assert igcFix(latDeg, latMMin, lngDeg, lngMMin, alt)
+//@   modifies nothing
+//@   loop 1:
+//@     invariant i >= 0 && n * ls.stride <= len(ls.flatCoords)
